@@ -49,14 +49,17 @@ class TOPDirector(SectionLineParser):
                  'angle_restraints': [slice(0, 4)],
                  'angle_restraints_z': [0, 1]}
 
-    def __init__(self, topology, cwdir=None):
+    def __init__(self, topology, cwdir=None, molecules=None):
         super().__init__()
         self.force_field = topology.force_field
         self.topology = topology
         self.current_meta = None
         self.current_itp = None
         self.itp_lines = []
-        self.molecules = []
+        # the lines of the molecules directive of an included file continue the
+        # list of the including file; only the outermost file makes the molecules
+        self.is_include = molecules is not None
+        self.molecules = molecules if self.is_include else []
         self.cwdir = cwdir
         self.header_actions = {
             ('moleculetype',): self._new_itp
@@ -242,7 +245,7 @@ class TOPDirector(SectionLineParser):
         total_count = 0
         _make_edges(self.force_field)
 
-        for mol_name, n_mol in self.molecules:
+        for mol_name, n_mol in ([] if self.is_include else self.molecules):
             block = self.force_field.blocks[mol_name]
             graph = MetaMolecule._block_graph_to_res_graph(block)
             for idx in range(0, int(n_mol)):
@@ -469,7 +472,7 @@ class TOPDirector(SectionLineParser):
         with open(filename, 'r') as _file:
             lines = _file.readlines()
 
-        read_topology(lines, topology=self.topology, cwdir=cwdir)
+        read_topology(lines, topology=self.topology, cwdir=cwdir, molecules=self.molecules)
 
     def _split_atoms_and_parameters(self, tokens, atom_idxs):
         """
@@ -511,7 +514,7 @@ class TOPDirector(SectionLineParser):
         return atoms, tokens
 
 
-def read_topology(lines, topology, cwdir=None):
+def read_topology(lines, topology, cwdir=None, molecules=None):
     """
     Parses `lines` of itp format and adds the
     molecule as a block to `force_field`.
@@ -522,5 +525,5 @@ def read_topology(lines, topology, cwdir=None):
         list of lines of an itp file
     force_field: :class:`vermouth.forcefield.ForceField`
     """
-    director = TOPDirector(topology, cwdir)
+    director = TOPDirector(topology, cwdir, molecules)
     return list(director.parse(iter(lines)))
